@@ -751,14 +751,32 @@ func c12PlaceCase(run *evid.Run, i int, j *Journal) {
 			var loaded *ipfslog.IPFSLog
 			var err error
 			heads := l.Heads().Slice()
+			// half of the loads are watched through the progress channel: a notification must be an entry
+			var prog chan iface.IPFSLogEntry
+			progNil, progN := 0, 0
+			progDone := make(chan struct{})
+			if (i+r)%2 == 1 {
+				prog = make(chan iface.IPFSLogEntry, 4)
+				go func() {
+					defer close(progDone)
+					for e := range prog {
+						progN++
+						if e == nil || !e.Defined() {
+							progNil++
+						}
+					}
+				}()
+			} else {
+				close(progDone)
+			}
 			returned, dump := callHang(cs, time.Second, func() {
 				switch loader {
 				case "manifest":
-					loaded, err = w2.LoadManifest(mhc, 0, &hx.LoadOpts{Concurrency: conc})
+					loaded, err = w2.LoadManifest(mhc, 0, &hx.LoadOpts{Concurrency: conc, Progress: prog})
 				case "json":
-					loaded, err = w2.LoadJSON(l.ToJSONLog(), 0, &hx.LoadOpts{Concurrency: conc})
+					loaded, err = w2.LoadJSON(l.ToJSONLog(), 0, &hx.LoadOpts{Concurrency: conc, Progress: prog})
 				case "entries":
-					loaded, err = w2.LoadEntries(heads, 0, &hx.LoadOpts{Concurrency: conc})
+					loaded, err = w2.LoadEntries(heads, 0, &hx.LoadOpts{Concurrency: conc, Progress: prog})
 				case "hash":
 					if (i+r)%2 == 0 {
 						// a caller that does not name the log (the id is optional): whatever the requested block is
@@ -777,6 +795,14 @@ func c12PlaceCase(run *evid.Run, i int, j *Journal) {
 				m := histSample(h)
 				m["placement"] = map[string]any{"replica": r, "position": pos, "victim": victim, "edits": item.Edits, "loader": loader, "block_hex": item.RawHex[:minInt(len(item.RawHex), 600)]}
 				return m
+			}
+			if returned && prog != nil {
+				close(prog)
+				<-progDone
+				run.Count("placement_loads_watched_through_the_progress_channel", 1)
+				if progNil > 0 {
+					run.Violate("C12/progress-not-an-entry", d, wit(), "%d of %d progress notifications of a load around hostile blocks were nil / undefined entries (a consumer using them crashes)", progNil, progN)
+				}
 			}
 			if !returned {
 				if dump == "" {
@@ -801,6 +827,12 @@ func c12PlaceCase(run *evid.Run, i int, j *Journal) {
 			got := hx.Observe(loaded)
 			if !model.SameKeys(got.Set, want) {
 				run.Violate("C12/rest-not-loaded", d, wit(), "log with hostile block %s at %s (%s loader): loaded %d entries, the remaining history has %d", item.Edits, pos, loader, len(got.Set), len(want))
+			} else if loader != "manifest" && loader != "entries" {
+				// "loads the remaining history": everything that was loaded must be IN the log's view - the history
+				// below a skipped block hangs off a head of its own (heads = entries nobody names as predecessor)
+				if !model.EqualAsSets(got.Heads, model.Heads(got.Set)) || len(got.Values) != len(got.Set) {
+					run.Violate("C12/rest-not-in-view", d, wit(), "log with hostile block %s at %s (%s loader): %d entries were loaded but the view has %d; heads %v, unreferenced entries %v", item.Edits, pos, loader, len(got.Set), len(got.Values), hx.SortedShorts(got.Heads), hx.Shorts(model.Heads(got.Set)))
+				}
 			}
 			// the log loaded around the hostile blocks (its index may hold entries that no longer hang off its heads)
 			// must keep working: reads, an append, and merges with every kind of size bound, each on a copy
